@@ -455,6 +455,32 @@ def _bad_fem_model_type_aerostruct():
     return _stage_runner(_struct_problem(lambda s: s.update({"fem_model_type": "shell"}), aerostruct=True))
 
 
+def _bad_fem_model_type_below_geometry(which):
+    """The unknown structural model type handed to a group *below* the geometry groups (a flight point that owns its
+    geometry, as in the morphing multipoint set-up, or the functionals group on its own): each has its own guard."""
+    import openmdao.api as om
+
+    def build():
+        md, mesh, twist_cp = zoo._gen_mesh("CRM", 2, 5, True, num_twist_cp=3)
+        s = {"name": "wing", "symmetry": True, "S_ref_type": "wetted", "mesh": mesh, "CL0": 0.0, "CD0": 0.015, "k_lam": 0.05,
+             "t_over_c_cp": np.array([0.15]), "c_max_t": 0.303, "with_viscous": True, "with_wave": False,
+             "twist_cp": np.array(twist_cp, dtype=float), "thickness_cp": np.array([0.1, 0.2, 0.3])}
+        s.update(zoo._tube_props())
+        s["fem_model_type"] = "shell"
+        prob = om.Problem(reports=False)
+        if which == "point":
+            from openaerostruct.integration.aerostruct_groups import AerostructPoint
+
+            prob.model.add_subsystem("AS_point_0", AerostructPoint(surfaces=[s]))
+        else:
+            from openaerostruct.structures.spatial_beam_functionals import SpatialBeamFunctionals
+
+            prob.model.add_subsystem("funcs", SpatialBeamFunctionals(surface=s))
+        return prob
+
+    return _stage_runner(build)
+
+
 def _bad_one_wingbox_thickness(which, aerostruct):
     def mod(s):
         s.pop("thickness_cp", None)
@@ -602,6 +628,8 @@ ERROR_TABLE = {
     "unknown_wing_type": (_bad_wing_type, "NameError", None),
     "unknown_fem_model_type_struct": (_bad_fem_model_type_struct, None, None),
     "unknown_fem_model_type_aerostruct": (_bad_fem_model_type_aerostruct, None, None),
+    "unknown_fem_model_type_point_only": (lambda: _bad_fem_model_type_below_geometry("point"), None, None),
+    "unknown_fem_model_type_functionals": (lambda: _bad_fem_model_type_below_geometry("funcs"), None, None),
     "only_skin_thickness_struct": (lambda: _bad_one_wingbox_thickness("spar_thickness_cp", False), "NameError", None),
     "only_spar_thickness_struct": (lambda: _bad_one_wingbox_thickness("skin_thickness_cp", False), "NameError", None),
     "only_skin_thickness_aerostruct": (lambda: _bad_one_wingbox_thickness("spar_thickness_cp", True), "NameError", None),
